@@ -58,6 +58,24 @@ DEGENERATE = ["ga3([1, 2, 3, 4])", "ga3([1])", "ga3([])", "ga3(vl)", "ga3(vll)",
               "toString(vfn)", "toString(vc)", "toInt(vl)", "toFloat(vm)", "typeOf(vcc)", "kindOf(nil)", "println", "x = println\nx = print", "load(\"/nonexistent/file\")", "load(1)", "defined(1)", "defined()"]
 
 
+# storage that an operand was read from is replaced (shrunk, retyped) by a LATER operand or by the loop body, before the operation uses it
+_TC = "c = make([][]int64, 1)\nc[0] = [1, 2, 3]\n"
+_ST = "st = make(struct { S []int64 })\nst.S = [1, 2, 3]\n"
+_PT = "pt = new([]int64)\n*pt = [1, 2, 3]\n"
+_SH = "func() { %s; return %s }()"
+DEGENERATE += ["a = [1]\nm = {a[0]: " + _SH % ("a[0] = [1, 2]", "1") + "}", "a = [1]\nm = map[interface]interface{a[0]: " + _SH % ("a[0] = {}", "1") + "}",
+               "a = [1, 2, 3]\na[" + _SH % ("a = []", "1") + "]", "a = [1, 2, 3]\na[0:" + _SH % ("a = []", "2") + "]", "a = [1, 2, 3]\na[" + _SH % ("a = [1]", "2") + "] = 5",
+               'm = {"k": [1, 2]}\nm.k[' + _SH % ("m.k = []", "1") + "]", 'm = {"k": [1, 2]}\nm.k[' + _SH % ("m = {}", "1") + "] = 3", 'm = {"k": [1, 2]}\nfor x in m.k {\n m.k = []\n}',
+               "try { make(struct { a int64 }) } catch e { e.s }", "try { throw 1 } catch e { e.s }", "try { vl[9] } catch e { [e.Message, e.Pos, e.message, e.pos] }", "try { zz } catch e { e.Error() + e.String() }"]
+for _pre, _place in ((_TC, "c[0]"), (_ST, "st.S"), (_PT, "*pt")):
+    for _new in ("[]", "nil", "[1]"):
+        DEGENERATE += [_pre + "for x in %s {\n %s = %s\n}" % (_place, _place, _new), _pre + "for i, x in %s {\n %s = %s\n}" % (_place, _place, _new) if False else _pre + "for x in %s {\n %s = %s\n y = [x]\n}" % (_place, _place, _new),
+                       _pre + "%s[%s]" % (_place, _SH % (_place + " = " + _new, "2")), _pre + "%s[%s:]" % (_place, _SH % (_place + " = " + _new, "1")), _pre + "%s[0:%s]" % (_place, _SH % (_place + " = " + _new, "3")),
+                       _pre + "%s[0:2:%s]" % (_place, _SH % (_place + " = " + _new, "3")), _pre + "%s[2] = %s" % (_place, _SH % (_place + " = " + _new, "7")), _pre + "%s[%s] = 7" % (_place, _SH % (_place + " = " + _new, "2")),
+                       _pre + "%s += %s" % (_place, _SH % (_place + " = " + _new, "[9]")), _pre + "len(%s) + %s" % (_place, _SH % (_place + " = " + _new, "1")), _pre + "1 in (%s + %s)" % (_place, _SH % (_place + " = " + _new, "[1]")),
+                       _pre + "switch %s[0] {\ncase %s:\n 1\n}" % (_place, _SH % (_place + " = " + _new, "1")), _pre + "x, y = %s[1], %s" % (_place, _SH % (_place + " = " + _new, "1")),
+                       _pre + "vg(%s[1]) + vg(%s)" % (_place, _SH % (_place + " = " + _new, "1")), _pre + "{%s[1]: %s}" % (_place, _SH % (_place + " = " + _new, "1")), _pre + "[%s[1], %s, %s[0]]" % (_place, _SH % (_place + " = " + _new, "1"), _place)]
+
 # limits of the reflect package reached by plain source text: many parameters, wide struct types as element / key / channel types
 def _wide(n): return "struct { " + ", ".join("F%d string" % i for i in range(n)) + " }"
 DEGENERATE += ["f = func(" + ", ".join("a%d" % i for i in range(n)) + ") { return 1 }\n1" for n in (5, 64, 126, 127, 128, 130, 300)]
